@@ -813,6 +813,11 @@ theorem real_fmtG (p0 : Nat) (neg : Bool) (m : Nat) (e2 : Int) (hm : m ≠ 0)
     (hv : isDouble (.fin neg m e2) = true) :
     ∃ mant z : Nat,
       mant * 10 ^ z = (sciDigits ((if p0 = 0 then 1 else p0) - 1) (Val.fin neg m e2).ratOf.1 (Val.fin neg m e2).ratOf.2).1 ∧
+      ((sciDigits ((if p0 = 0 then 1 else p0) - 1) (Val.fin neg m e2).ratOf.1 (Val.fin neg m e2).ratOf.2).2
+          - (((if p0 = 0 then 1 else p0) - 1 : Nat) : Int) + (z : Int)
+        ≤ (sciDigits ((if p0 = 0 then 1 else p0) - 1) (Val.fin neg m e2).ratOf.1 (Val.fin neg m e2).ratOf.2).2 ∨
+       (sciDigits ((if p0 = 0 then 1 else p0) - 1) (Val.fin neg m e2).ratOf.1 (Val.fin neg m e2).ratOf.2).2
+          - (((if p0 = 0 then 1 else p0) - 1 : Nat) : Int) + (z : Int) ≤ 0) ∧
       ∀ rest : List Char, NumEnd rest → real (fmtG p0 (Val.fin neg m e2) ++ rest) = scaled neg mant
         ((sciDigits ((if p0 = 0 then 1 else p0) - 1) (Val.fin neg m e2).ratOf.1 (Val.fin neg m e2).ratOf.2).2
           - (((if p0 = 0 then 1 else p0) - 1 : Nat) : Int) + (z : Int)) rest := by
@@ -839,7 +844,8 @@ theorem real_fmtG (p0 : Nat) (neg : Bool) (m : Nat) (e2 : Int) (hm : m ≠ 0)
     · rw [if_pos he0]
       obtain ⟨mant, z, hmz, hzj, hreal⟩ := real_split neg (fixedDigits P ds) (e.toNat + 1) hsd (by omega)
         (by rw [hslen]; omega)
-      refine ⟨mant, z, by rw [hmz, hsval], ?_⟩
+      rw [hslen] at hzj
+      refine ⟨mant, z, by rw [hmz, hsval], Or.inr (by omega), ?_⟩
       intro rest hr
       rw [hreal rest rest 0 hr.noDigit (numEnd_not_dot hr) (exponent_none rest hr), hslen]
       congr 1
@@ -859,7 +865,7 @@ theorem real_fmtG (p0 : Nat) (neg : Bool) (m : Nat) (e2 : Int) (hm : m ≠ 0)
       have hval : (['0'] ++ fp).foldl dval 0 * 10 ^ z = ds := by
         have h0 : (['0'] ++ fp).foldl dval 0 = fp.foldl dval 0 := by simp [dval]
         rw [h0, ← foldl_zeros, ← List.foldl_append, ← hz, List.foldl_append, foldl_zeros, Nat.zero_mul, hsval]
-      refine ⟨(['0'] ++ fp).foldl dval 0, z, hval, ?_⟩
+      refine ⟨(['0'] ++ fp).foldl dval 0, z, hval, Or.inr (by omega), ?_⟩
       intro rest hr
       have hcore := real_core neg true ['0'] fp rest rest 0 (by simp) (by intro c hc; rw [List.mem_singleton.mp hc]; decide)
         hfd (by intro h; exact absurd h (by decide)) hr.noDigit (numEnd_not_dot hr) (exponent_none rest hr)
@@ -871,7 +877,8 @@ theorem real_fmtG (p0 : Nat) (neg : Bool) (m : Nat) (e2 : Int) (hm : m ≠ 0)
   · rw [if_neg hfix]
     obtain ⟨mant, z, hmz, hzj, hreal⟩ := real_split neg (fixedDigits P ds) 1 hsd (Nat.le_refl _)
       (by rw [hslen]; exact hP)
-    refine ⟨mant, z, by rw [hmz, hsval], ?_⟩
+    rw [hslen] at hzj
+    refine ⟨mant, z, by rw [hmz, hsval], Or.inl (by omega), ?_⟩
     intro rest hr
     have hY3 := exponent_expPart e rest (by omega) hr.noDigit
     rw [List.append_assoc, hreal (expPart e ++ rest) rest e (by unfold expPart; exact noDigitHead_cons _ (by decide))
